@@ -98,6 +98,37 @@ def check_batch(rep, tag, batch, wd):
     return len(batch)
 
 
+def exact_names_leg(rep, wd):
+    """ApplyPat(Fixed(s), name) = s, whatever s is: a placeholder-free abi_rename is the exported symbol verbatim -- also when it reads
+    like a word some target language reserves (the macro exports it as written; a backend that escapes it refers to nothing)."""
+    src = ("#[diplomat::bridge]\npub mod kw {\n    #[diplomat::opaque]\n    #[diplomat::abi_rename = \"imaginary\"]\n    pub struct Kw(pub u8);\n"
+           "    impl Kw {\n        #[diplomat::abi_rename = \"complex\"]\n        pub fn get(&self) -> u8 { 1 }\n"
+           "        #[diplomat::abi_rename = \"noreturn\"]\n        pub fn two(&self) -> u8 { 2 }\n    }\n}\n")
+    b = lib.build_bridge("c06_exact", src)
+    if not b["ok"]:
+        rep.violation({"leg": "exact-names", "what": "bridge does not build"}, {"stderr": b["stderr"][-2000:]})
+        return 0
+    want = {"imaginary", "complex", "noreturn"}
+    got_nm = set(s_ for s_ in lib.nm_defined(b["staticlib"]) if s_ in want or s_.rstrip("_") in want)
+    if got_nm != want:
+        rep.violation({"leg": "exact-names", "what": "macro does not export the fixed names verbatim"}, {"exported": sorted(got_nm)})
+    entry = os.path.join(b["dir"], "src", "lib.rs")
+    n = 0
+    for be in lib.BACKENDS:
+        out = os.path.join(wd, "out_exact_" + be)
+        r = lib.run_tool(be, entry, out)
+        if r["rc"] != 0:
+            rep.violation({"leg": "exact-names", "backend": be, "what": "tool failed"}, {"stderr": r["stderr"][-800:]})
+            continue
+        refs = set(s_ for s_ in observe.symbol_refs(be, out) if s_.rstrip("_") in want)
+        n += 1
+        if refs != want:
+            rep.violation({"leg": "exact-names", "backend": be, "what": "referenced symbols differ from the fixed names the macro exports"},
+                          {"expected": sorted(want), "referenced": sorted(refs)})
+        rep.nontriv("exact-names|" + be)
+    return n
+
+
 def run(rep, tier):
     wd = rep.wd
     rep.rule = ("programs = all placements (see covered) of abi_rename patterns (none / fixed / prefix{0} / {0}suffix) on module, type, impl block "
@@ -129,6 +160,7 @@ def run(rep, tier):
         c = cases[k]
         if any(c[p]["k"] != "none" for p in ("pm", "pt", "pi", "pme")):
             rep.nontriv(k)
+    rep.evaluations += exact_names_leg(rep, wd)
     rep.evaluations += n * 8
     rep.traces += n
     rep.sample({"program": render(idx[0], cases[idx[0]]), "expected": {k: concretise(v, idx[0]) for k, v in cases[idx[0]]["exported"].items()}})
